@@ -377,6 +377,14 @@ def base_ops(run, final=False):
         for key in KEYS:
             ops.append(("clear", key))
         ops.append(("clearall",))
+    else:
+        # a Clear as last operation matters only where it could touch a registry owned by a house or framer
+        cl = run.classes()
+        for key in ("store", "tasker", "log"):
+            if any(cl[key].Names is run.insts[hi].names[key] for hi in run.houses):
+                ops.append(("clear", key))
+        if any(cl["frame"].Names is run.insts[fi].frameNames for fi in run.framers):
+            ops.append(("clear", "frame"))
     for c in ("Tasker", "Log", "Store", "Frame") if QUICK else ("Tasker", "Logger", "Log", "Store", "Frame"):
         for n in EXPL[c]:
             ops.append(("new", c, n, None, ()))
